@@ -438,7 +438,7 @@ def parse_steps(steps):
 
 # how a child comes to life: fresh import + _bootstrap/run, inherited globals (fork) + at-fork hooks +
 # _bootstrap/run, late import; `-o`: its Process subclass overrides run() without super().run()
-FLAVOURS = ["run", "import", "fork", "run-o", "fork-o"]
+FLAVOURS = ["run", "import", "fork", "run-o", "fork-o", "run-d", "fork-d", "import-d", "fork-o-d"]
 ONLINE_SCENARIOS = ("two-first-starts", "raising-bodies", "mix", "urwid-after-start", "late-import-then-start",
                     "failing-start")
 ONLINE_QUICK = 360
@@ -453,8 +453,10 @@ FSCHED_THOROUGH = 800
 MP_QUICK = [("spawn", "ctx", 0, "target", 0), ("spawn", "default", 1, "target", 0),
             ("fork", "default", 0, "run", 0), ("spawn", "default", 0, "run", 0),
             ("spawn", "default", 0, "target", 1), ("spawn", "ctx", 0, "run", 1),
-            ("fork", "default", 0, "after", 0), ("fork", "ctx", 0, "after", 0),
-            ("spawn", "default", 0, "failfirst", 0)]
+            ("fork", "default", 0, "after", 0),
+            ("spawn", "default", 0, "failfirst", 0),
+            ("fork", "default", 0, "daemon", 0), ("spawn", "ctx", 0, "daemon", 0), ("spawn", "ctx", 0, "pool", 0),
+            ("spawn+fork", "ctx", 0, "target", 0), ("forkserver+fork", "ctx", 0, "target", 0)]
 MP_ALL = ([(m, h, lz, "target", 0) for m in ("fork", "spawn", "forkserver") for h in ("default", "ctx") for lz in (0, 1)]
           + [("mixed", "ctx", 0, "target", 0), ("mixed", "ctx", 1, "target", 0)]
           + [(m, h, 0, "run", 0) for m in ("fork", "spawn", "forkserver") for h in ("default", "ctx")]
@@ -463,7 +465,11 @@ MP_ALL = ([(m, h, lz, "target", 0) for m in ("fork", "spawn", "forkserver") for 
           + [(m, "default", 0, "target", 1) for m in ("fork", "spawn", "forkserver")]
           + [("spawn", "ctx", 0, "run", 1)]
           + [(m, "default", 0, "after", 0) for m in ("fork", "spawn", "forkserver")]
-          + [(m, h, 0, "failfirst", 0) for m in ("spawn", "forkserver") for h in ("default", "ctx")])
+          + [(m, h, 0, "failfirst", 0) for m in ("spawn", "forkserver") for h in ("default", "ctx")]
+          + [("fork", "ctx", 0, "after", 0)]
+          + [(m, h, 0, "daemon", 0) for m in ("fork", "spawn", "forkserver") for h in ("default", "ctx")]
+          + [(m, "ctx", 0, "pool", 0) for m in ("fork", "spawn", "forkserver")]
+          + [(m, "ctx", lz, "target", 0) for m in ("spawn+fork", "forkserver+fork") for lz in (0, 1)])
 
 
 def mp_key(method, how, lazy, style="target", pre=0):
@@ -481,6 +487,8 @@ def mp_case(cfg, scale):
 def mp_what(j, method, how, lazy, style="target", pre=0):
     sup = {"target": "children given as target=", "run": "children are Process subclasses overriding run() without super().run()",
            "runsuper": "children are Process subclasses whose run() calls super().run()",
+           "daemon": "children are daemonic (daemon=True), the first start is a daemonic one",
+           "pool": "two multiprocessing.Pool workers (daemonic processes started by the pool)",
            "failfirst": "the first Process.start() fails (its target cannot be pickled) while the parent's threads are calling",
            "after": "an empty child first, then main thread vs. one child, then two threads — nothing races with a start"}[style]
     return (f"real multiprocessing ({method}, {'get_context().Process' if how == 'ctx' else 'multiprocessing.Process'}, "
@@ -547,6 +555,7 @@ class C14(Property):
             f"def lockAliases : List String := {lean_list(f['lockAliases'])}\n"
             f"def wrappedMethods : List String := {lean_list(f['wrappedMethods'])}\n"
             f"def atForkHooks : List String := {lean_list(f['atForkHooks'])}\n"
+            f"def startCallContext : List String := {lean_list(f['startCallContext'])}\n"
             "end TIV.C14.Generated\n"
         )
         return {"TIV/C14/Generated.lean": body}
